@@ -1,8 +1,10 @@
-(** C19 — assembled server (shape of Services.Start and main()'s waits read from the source): from EVERY state any schedule can reach, with any subset of the listeners unable to bind, once main() has cancelled, two steps of the retention scanner and then every remaining wait of main() (SMTP Drain, POP3 Drain, retention Join) are enabled in this order and main() is done *)
-From IV Require Import Base.Bytes Gen.LifecyclePins Model.Lifecycle Model.LifecycleAsm Proofs.LifecycleAsm.
-Local Open Scope nat_scope.
-Theorem shutdown_terminates : forall e ren acts y,
+(** C19 — shutdown_terminates *)
+From Coq Require Import Lia.
+From IV Require Import Base.Bytes Gen.LifecyclePins Model.Lifecycle Model.LifecycleAsm.
+From IV Require Import Proofs.LifecycleAsm.
+Theorem shutdown_terminates :
+  forall e ren acts y,
     arun pinned_shape e (asm_init pinned_shape ren) acts = Some y -> a_cancel y = true ->
-    exists y1, arun pinned_shape e y ([XRet 0; XRet 0] ++ map (fun _ => XMain) (a_todo y)) = Some y1 /\ a_todo y1 = [].
-Proof. exact LifecycleAsm.shutdown_terminates. Qed.
+    exists y', arun pinned_shape e y (finish_acts e y) = Some y' /\ a_todo y' = [].
+Proof. first [exact LifecycleAsm.shutdown_terminates | intros; apply LifecycleAsm.shutdown_terminates]. Qed.
 Print Assumptions shutdown_terminates.
